@@ -14,8 +14,9 @@ RULES = {
 }
 RULE_TEXT = (
     "directed sweep over the 12-symbol boundary alphabet (flag x {1,2,3,0x7FFF,0xFFFE,0xFFFF}): 12 first messages, 144 ordered pairs and "
-    "1728 triples on one key, 5184 interference cases (a on K, x on another sender / the other channel / both, b on K); random walks of "
-    "20-2000 messages over 3 senders x 2 channels with random 16-bit ids, foreign and undecodable datagrams, coalesced messages, "
+    "1728 triples on one key (a third of them as Offer / StopOffer / Find of a watched service, a third as Offer with TTL 1 / Find / a message after the expiry: the sender's services come and go, its session record must stay), "
+    "6912 interference cases (a on K, x on another sender / the other channel / both / another port of the same host, b on K); random walks of "
+    "20-2000 messages over 3 hosts x 2 ports x 2 channels with random 16-bit ids, offers and stop-offers of a watched service with short TTLs, foreign and undecodable datagrams, coalesced messages, "
     "duplicates and reordered copies. non-trivial = at least one message had a predecessor on its key; distinct = interleaving signature; "
     "distinct_model_states counts distinct (previous symbol, symbol, outcome) transitions observed"
 )
@@ -23,10 +24,16 @@ PROBES = ["unicast_flag_clear_messages", "detections", "non_detections_with_hist
 
 SIDS = [1, 2, 3, 0x7FFF, 0xFFFE, 0xFFFF]
 SYMS = [(f, s) for f in (0, 1) for s in SIDS]
-N1, N2, N3, NI = 12, 144, 1728, 5184
+N1, N2, N3, NI = 12, 144, 1728, 6912
 NSWEEP = N1 + N2 + N3 + NI
 RANDOM_RUNS = {"quick": 3000, "thorough": 400000}
 FIND = [["find", 0x7777, 0xFFFF, 0xFF, 0xFFFFFFFF, 3]]
+WATCHED = [0x1111, 0xFFFF, 0xFF, 0xFFFFFFFF]
+ALT_PORT = 40001
+
+
+def OFFER(ttl):
+    return [["offer", 0x1111, 1, 1, 0, ttl]]
 
 
 def budget(tier):
@@ -37,16 +44,20 @@ def EXHAUSTIVE(tier, complete):
     return {"alphabet": 12, "first": N1, "pairs": N2, "triples": N3, "interference": NI, "completed": complete}
 
 
-def msg(t, p, ch, sym, entries=None):
-    return {"k": "sd", "t": t, "p": p, "ch": ch, "sess": [sym[0], sym[1]], "e": FIND if entries is None else entries}
+def msg(t, p, ch, sym, entries=None, port=None):
+    o = {"k": "sd", "t": t, "p": p, "ch": ch, "sess": [sym[0], sym[1]], "e": FIND if entries is None else entries}
+    if port is not None:
+        o["port"] = port
+    return o
 
 
 def base_plan(ops, cls, seed=0, until=None):
     cfg = {
         "wrap": ["reboot"],
+        "filters": [WATCHED],
         "timings": {"INITIAL_DELAY_MIN": 0.0, "INITIAL_DELAY_MAX": 0.0, "REPETITIONS_MAX": 0, "SUBSCRIBE_REFRESH_INTERVAL": None},
     }
-    ops = [{"k": "call", "t": 0.0, "f": "start"}] + ops
+    ops = [{"k": "call", "t": 0.0, "f": "start"}, {"k": "call", "t": 0.0, "f": "watch", "a": [0, "L0"]}] + ops
     return {"engine": "single", "property": ID, "class": cls, "seed": seed, "cfg": cfg, "ops": ops, "until": until or (max(o["t"] for o in ops) + 1.0)}
 
 
@@ -61,11 +72,18 @@ def sweep_plan(i):
     i -= N2
     if i < N3:
         a, b, c = SYMS[i // 144], SYMS[(i // 12) % 12], SYMS[i % 12]
+        variant = (i // 12 + i) % 3
+        if variant == 1:
+            # the sender's only service is offered, then stopped: the record of the sender must survive that
+            return base_plan([msg(0.1, 1, "m", a, OFFER(3)), msg(0.2, 1, "m", b, OFFER(0)), msg(0.3, 1, "m", c)], "triple")
+        if variant == 2:
+            # ... or expires (TTL 1 at 0.1 -> 1.1) before the third message
+            return base_plan([msg(0.1, 1, "m", a, OFFER(1)), msg(0.2, 1, "m", b), msg(1.4, 1, "m", c)], "triple")
         return base_plan([msg(0.1, 1, "m", a), msg(0.2, 1, "m", b), msg(0.3, 1, "m", c)], "triple")
     i -= N3
-    a, x, b, kind = SYMS[(i // 432) % 12], SYMS[(i // 36) % 12], SYMS[(i // 3) % 12], i % 3
-    other = [(1, "u"), (0, "m"), (1, "m")][kind]  # other sender / other channel / both
-    return base_plan([msg(0.1, 0, "u", a), msg(0.2, other[0], other[1], x), msg(0.3, 0, "u", b)], "interference")
+    a, x, b, kind = SYMS[(i // 576) % 12], SYMS[(i // 48) % 12], SYMS[(i // 4) % 12], i % 4
+    other = [(1, "u", None), (0, "m", None), (1, "m", None), (0, "u", ALT_PORT)][kind]  # other sender / other channel / both / other port of the same host
+    return base_plan([msg(0.1, 0, "u", a), msg(0.2, other[0], other[1], x, port=other[2]), msg(0.3, 0, "u", b)], "interference")
 
 
 def random_plan(seed, idx):
@@ -75,9 +93,10 @@ def random_plan(seed, idx):
     t = 0.1
     sent = []
     for j in range(n):
-        t = round(t + r.choice([0.0, 0.0, 0.001, 0.01, 0.5]), 6)
+        t = round(t + r.choice([0.0, 0.0, 0.001, 0.01, 0.5, 1.2 if n <= 100 else 0.01]), 6)
         p = r.randrange(3)
         ch = r.choice("um")
+        port = ALT_PORT if r.random() < 0.2 else None
         u = r.random()
         if u < 0.70:
             w = r.random()
@@ -89,15 +108,16 @@ def random_plan(seed, idx):
             else:
                 sid = r.randint(1, 0xFFFF)
             sym = (r.random() < 0.6, sid)
-            o = msg(t, p, ch, sym, FIND if r.random() < 0.8 else [])
+            w2 = r.random()
+            o = msg(t, p, ch, sym, FIND if w2 < 0.5 else OFFER(r.choice([1, 1, 3])) if w2 < 0.7 else OFFER(0) if w2 < 0.8 else [], port=port)
             if r.random() < 0.12:
                 o["uf"] = False  # unicast flag clear: its entries are ignored, it is still a received SD message of that sender
             ops.append(o)
-            sent.append((t, p, ch, sym))
+            sent.append((t, p, ch, sym, port))
         elif u < 0.78 and sent:
             # duplicate / reordered copy of an earlier message, as the network would produce it
-            _, p2, ch2, sym2 = r.choice(sent[-5:])
-            ops.append(msg(t, p2, ch2, sym2))
+            _, p2, ch2, sym2, port2 = r.choice(sent[-5:])
+            ops.append(msg(t, p2, ch2, sym2, port=port2))
         elif u < 0.88:
             # foreign SOME/IP message (not SD): must neither trigger nor update
             data = refdec.enc_someip(r.choice([0x1234, 0xFFFF]), r.choice([0x8100, 1]), 0, r.randint(1, 0xFFFF), r.choice([1, 2]), r.choice([0, 2]), 0, b"\x80\x00\x00\x00" + bytes(8))
